@@ -138,7 +138,7 @@ class SafeRepresenter(BaseRepresenter):
             return True
         if type(data) is tuple and data == ():
             return True
-        if isinstance(data, (str, bytes, bool, int, float)):
+        if type(data) in (str, bytes, bool, int, float):
             return True
 
     def represent_none(self, data):
